@@ -123,8 +123,10 @@ let code_name = function
 let show_err = function
   | ESyntax (c, l, cl) -> Printf.sprintf "err %s %s %s" (code_name c) (dec_of_n l) (dec_of_n cl)
   | EIo e -> "io " ^ dec_of_n e
-  | EPanic k -> "panic " ^ dec_of_n k
   | EFuel -> "fuel"
+let show_xerr = function
+  | XErr e -> show_err e
+  | XPanic k -> "panic " ^ dec_of_n k
 
 let show_span (s : span) : string =
   let (l1, c1) = s.sp_start and (l2, c2) = s.sp_end in
@@ -151,8 +153,8 @@ let show_datum (d : datum) : string =
   let b = Buffer.create 64 in
   show_value b d.dvalue; Buffer.add_string b " @ "; show_info b d.dvalue d.dinfo; Buffer.contents b
 
-let show_vres = function Ok v -> "ok " ^ string_of_value v | Err e -> show_err e
-let show_dres = function Ok d -> "ok " ^ show_datum d | Err e -> show_err e
+let show_vres = function POk v -> "ok " ^ string_of_value v | PErr e -> show_xerr e
+let show_dres = function POk d -> "ok " ^ show_datum d | PErr e -> show_xerr e
 
 let read_calls (s : string) : call list =
   List.init (String.length s) (fun i -> match s.[i] with
@@ -165,7 +167,7 @@ let show_call_result = function
   | RDatum None -> "d -"
   | RDatum (Some d) -> "d " ^ show_datum d
   | RUnit -> "u"
-  | RErr e -> show_err e
+  | RErr e -> show_xerr e
 
 let std_parse (sg : n) (e : z) : f64 = dec_to_f64 sg e
 
